@@ -17,6 +17,7 @@ import (
 	"time"
 
 	"github.com/nspcc-dev/neo-go/pkg/config"
+	"github.com/nspcc-dev/neo-go/pkg/core/block"
 	"github.com/nspcc-dev/neo-go/pkg/core/state"
 	"github.com/nspcc-dev/neo-go/pkg/core/storage"
 	"github.com/nspcc-dev/neo-go/pkg/core/transaction"
@@ -574,6 +575,82 @@ func resetRun(t *testing.T, run *ev.Run, idx, nblocks int) {
 	}
 }
 
+// resetAheadRun: the node being reset knows headers above its block height
+// (header-first synchronisation, or a crash between the header and the block
+// flush); the reset target is the block height itself or a few blocks lower.
+// The completed reset must leave no trace of those headers: the node is
+// compared with one that only ever synchronised to the target, both are fed an
+// alternative continuation.
+func resetAheadRun(t *testing.T, run *ev.Run, idx, nblocks int) {
+	h := vchain.BuildHistory(t, vchain.HistoryCfg{Idx: idx, Blocks: nblocks, Echidna: idx%2 == 1})
+	defer h.P.Close()
+	if h.P.Rejected != nil {
+		run.Violation("producer-rejected-own-block", fmt.Sprint("run", idx), h.P.Rejected.Error(), nil)
+		return
+	}
+	cfg := h.Proto
+	r := rng.New(uint64(idx)*13 + 14)
+	ahead := 1 + r.Intn(4)
+	have := len(h.P.Raw) - ahead
+	for _, target := range []int{have, have - 1 - r.Intn(3)} {
+		id := fmt.Sprintf("reset-ahead%d/blocks%d/headers%d/to%d", idx, have, have+ahead, target)
+		if !run.Want(id) {
+			continue
+		}
+		_, rep, err := record(t, h, cfg, uint64(idx)*13+15, have)
+		if err != nil {
+			run.Violation("reset:recording-node-failed", fmt.Sprint("run", idx), err.Error(), nil)
+			return
+		}
+		var hdrs []*block.Header
+		for i := have; i < have+ahead; i++ {
+			b, err := vchain.DecodeBlock(h.P.Raw[i], false)
+			if err != nil {
+				t.Fatal(err)
+			}
+			hdrs = append(hdrs, &b.Header)
+		}
+		if err := rep.BC.AddHeaders(hdrs...); err != nil {
+			rep.Close()
+			run.Violation("reset:headers-refused", id, err.Error(), nil)
+			return
+		}
+		rep.BC.Close()
+		bc, _, _, err := vchain.OpenChainNoRun(t, false, cfg, rep.Store)
+		if err != nil {
+			run.Violation("reset:reopen-before-reset-failed", id, err.Error(), nil)
+			return
+		}
+		if int(bc.HeaderHeight()) != have+ahead || int(bc.BlockHeight()) != have {
+			t.Fatalf("%s: reopened at block %d header %d", id, bc.BlockHeight(), bc.HeaderHeight())
+		}
+		var rerr error
+		func() {
+			defer func() {
+				if x := recover(); x != nil {
+					rerr = fmt.Errorf("panic: %v", x)
+				}
+			}()
+			rerr = bc.Reset(uint32(target))
+		}()
+		run.Case(id, true)
+		if rerr != nil {
+			run.Violation("reset:uninterrupted-reset-failed", id, rerr.Error(), map[string]any{"target": target, "height": have})
+			_ = rep.Store.RealClose()
+			continue
+		}
+		run.Obs("resets_with_headers_ahead", 1)
+		o := vchain.Observe(bc, h.P.ObsOpts())
+		if n, d := obsDiff(h.P.Obs[target], o); n != "" {
+			run.Violation("reset:completed-reset-state-differs:"+n, id, d, map[string]any{"target": target, "headers_ahead": ahead})
+			_ = rep.Store.RealClose()
+			continue
+		}
+		forkCheck(t, run, h, cfg, rep.Store.Inner, target, id+"/fork")
+		_ = rep.Store.RealClose()
+	}
+}
+
 func checkResetPrefix(t *testing.T, run *ev.Run, h *vchain.History, cfg func(*config.Blockchain), content map[string][]byte, backend string, target int, final map[string][]byte) *outcome {
 	stage := stageName(content)
 	rep, dir, err := reopen(t, content, backend, cfg)
@@ -885,6 +962,9 @@ func TestCheck(t *testing.T) {
 	if do("reset") {
 		for i := 0; i < ev.Pick(2, 5); i++ {
 			resetRun(t, run, 400+i, ev.Pick(24, 60))
+		}
+		for i := 0; i < ev.Pick(2, 8); i++ {
+			resetAheadRun(t, run, 450+i, ev.Pick(20, 40))
 		}
 	}
 	if do("page") {
